@@ -645,7 +645,8 @@ class StrengthModel:
         strongContributions = np.array(strongContributions)
         strongContributions[(strongContributions < 0) | ~np.isfinite(strongContributions)] = 0
         tauowo = np.array(self.orowan(rss, Ls))
-        tauowo[~np.isfinite(tauowo)] = 0
+        #The logarithmic term is negative for particles smaller than half the dislocation core radius, so clip like the other contributions
+        tauowo[(tauowo < 0) | ~np.isfinite(tauowo)] = 0
         return weakContributions, strongContributions, tauowo, contributionsList
     
     def combineStrengthContributions(self, weakContributions, strongContributions, orowan, returnComparison = False):
